@@ -22,6 +22,8 @@
 //   sa <s> <j>                     S_s << handle of the parked coroutine C_j
 //   sp <s>                         h = S_s.pop(); coro_queue::resume(h)
 //   sf <s>                         S_s.clear()
+//   sm <s> <t> / sg <s> <t>        S_s << std::move(S_t)  /  S_s = std::move(S_t)   (merge of whole suspend points)
+//   rm <s> <i> <v|e|d>             S_s << P_i(..): the suspend point returned by a resolution is merged into S_s
 //   gen <g> <H|N> <n>              create synchronous generator G_g yielding 0..n-1
 //   gs <g> <n|f>                   step: bool(G.next()) / future = G()
 //   gd <g>                         destroy G_g
@@ -648,6 +650,29 @@ struct Runner {
         return "n=" + std::to_string(n);
     }
 
+    std::string op_sm(int s, int t, bool assign) {
+        measured m;
+        if (assign) *sps[s] = std::move(*sps[t]);
+        else *sps[s] << std::move(*sps[t]);
+        if (s != t)
+            for (auto &c : cos)
+                if (c.st == INSP && c.insp == t) c.insp = s;
+        std::size_t n = sps[s]->size();
+        al::hguard g;
+        return "n=" + std::to_string(n);
+    }
+    std::string op_rm(int s, int i, char kind) {
+        Fut &f = futs[i];
+        if (!f.existed) return "skip";
+        measured m;
+        suspend_point<bool> r = resolve(f.p, kind, i, exc);
+        bool won = r;
+        *sps[s] << std::move(r);      // the released coroutines stay suspended, carried by S_s
+        std::size_t n = sps[s]->size();
+        al::hguard g;
+        return std::string(won ? "1" : "0") + " n=" + std::to_string(n);
+    }
+
     std::string op_gen(int g, bool heap, int n) {
         Gen &G = gens[g];
         if (G.exists) return "skip";
@@ -744,6 +769,10 @@ struct Runner {
             else if (k == "sa" && w.size() == 3 && to_nat(w[1], a) && a < NSP && to_nat(w[2], b) && b < MAXID) head = op_sa(a, b);
             else if (k == "sp" && w.size() == 2 && to_nat(w[1], a) && a < NSP) head = op_sp(a);
             else if (k == "sf" && w.size() == 2 && to_nat(w[1], a) && a < NSP) head = op_sf(a);
+            else if ((k == "sm" || k == "sg") && w.size() == 3 && to_nat(w[1], a) && a < NSP && to_nat(w[2], b) && b < NSP)
+                head = op_sm(a, b, k == "sg");
+            else if (k == "rm" && w.size() == 4 && to_nat(w[1], a) && a < NSP && to_nat(w[2], b) && b < MAXID &&
+                     w[3].size() == 1 && std::strchr("ved", w[3][0])) head = op_rm(a, b, w[3][0]);
             else if (k == "gen" && w.size() == 4 && to_nat(w[1], a) && a < MAXID && (w[2] == "H" || w[2] == "N") &&
                      to_nat(w[3], b)) head = op_gen(a, w[2] == "H", b);
             else if (k == "gs" && w.size() == 3 && to_nat(w[1], a) && a < MAXID && (w[2] == "n" || w[2] == "f")) head = op_gs(a, w[2][0]);
